@@ -704,6 +704,13 @@ func (hm *hintMgr) loadHintsByChunk(chunkID int) (datasize uint32) {
 	if len(ck.splits) < 2 {
 		return 0
 	}
+	// lookups by key walk the chunks from maxChunkID downwards, so the hints
+	// loaded at startup must be reachable before the first write moves it
+	hm.Lock()
+	if chunkID > hm.maxChunkID {
+		hm.maxChunkID = chunkID
+	}
+	hm.Unlock()
 	return
 }
 
